@@ -10,6 +10,7 @@
     assignment and through an expression of opaque type: the major type never changes while constrained.
 """
 import itertools
+import re
 import time
 
 from ..core import Case, Violation, explore, finish, generic_safety, op_ctx, op_run, op_dump, op_out, op_expr, op_setvar, unhex, Result
@@ -78,6 +79,8 @@ def check_expr(case, res, vs):
             dtype = stype
         if not opaque(stype) and stype != dtype:
             # a tuple whose static structure is known must match; a typed table with undefined element type is opaque
+            if re.search(r"\b(uq|us|ut|ur|ub)\b", m["e"]):
+                cls += ":typed-only-by-unexecuted-assignment"
             vs.append(Violation("static-vs-dynamic:%s" % cls, "%s is compiled as %s but evaluates to %s (%s)" % (m["e"], stype, dtype, ex.get("val", "")[:80]), case))
         if len(st) >= 2 and "out" in st[-1] and st[-2].get("r") == "ok" and not opaque(stype):
             shown = unhex(st[-1]["out"]).decode("latin-1").strip().lower()
@@ -104,33 +107,50 @@ STMTS = [
 STMTS_QUICK = [s for i, s in enumerate(STMTS) if i not in (6, 7, 20, 26, 30, 31)]
 
 
+# a second alphabet around structured types: tuples, tables of tuples, tables of tables of tuples; assignments that are compiled
+# but not executed (the symbol is re-typed while parsing and must come back with its full structure), structure-dependent uses
+STMTS_T = [
+    'x = tup(1, "a");', 'x = tab(2, tup(1, "a"));', 'x = tab(1, tab(1, tup(1, "a")));',
+    'if false then x = tup(2, "b", 3); end if;', 'if false then x = tab(1, tup(2, "b", 3)); end if;', "if false then x = 5; end if;",
+    'if false then x = tab(1, tab(1, tup(2, "b", 3))); end if;',
+    'x.set@2("z");', 'x.at(0).set@2("z");', "print x@2;", "print x.at(0)@2;", "print x.count();", "y = x;", "print typeof(x);",
+    "forall e in x loop print e@1; end loop;", 'x.concat(tup(7, "c"));', "x = null;",
+]
+
+
 def prog_gen(tier):
     maxlen = 4 if tier == "thorough" else 3
-    alphabet = STMTS if tier == "thorough" else STMTS_QUICK
 
     def gen():
         n = 0
-        for l in range(1, maxlen + 1):
-            if l == 4:
-                # the fourth statement is taken from the uses only (the first three set the scene)
-                last = [s for s in alphabet if s.startswith("print") or s.startswith("y =") or ".concat" in s or s.startswith("x = f")]
-                combos = ((a, b, c, d) for a in alphabet for b in alphabet for c in alphabet for d in last)
-            else:
-                combos = itertools.product(alphabet, repeat=l)
-            for seq in combos:
-                whole = " ".join(seq)
-                ops = [op_ctx(0), op_run(whole), op_out(0), op_dump(0), "funcs 0", op_ctx(1)]
-                for s in seq:
-                    ops.append(op_run(s, slot=1))
-                ops += [op_out(1), op_dump(1), "funcs 1"]
-                yield Case("q%d" % n, ops, {"kind": "prog", "seq": list(seq)})
-                n += 1
+        for alphabet in ((STMTS if tier == "thorough" else STMTS_QUICK), STMTS_T):
+          for l in range(1, maxlen + 1):
+              if l == 4:
+                  # the fourth statement is taken from the uses only (the first three set the scene)
+                  last = [s for s in alphabet if s.startswith("print") or s.startswith("y =") or ".concat" in s or s.startswith("x = f")]
+                  combos = ((a, b, c, d) for a in alphabet for b in alphabet for c in alphabet for d in last)
+              else:
+                  combos = itertools.product(alphabet, repeat=l)
+              for seq in combos:
+                  whole = " ".join(seq)
+                  ops = [op_ctx(0), op_run(whole), op_out(0), op_dump(0), "funcs 0", op_ctx(1)]
+                  for s in seq:
+                      ops.append(op_run(s, slot=1))
+                  ops += [op_out(1), op_dump(1), "funcs 1"]
+                  yield Case("q%d" % n, ops, {"kind": "prog", "seq": list(seq)})
+                  n += 1
     return gen
 
 
 def vals(dump):
     """variable values without the declared symbol types (the statement only promises equal behaviour)"""
     return {k: v.partition("=")[2] for k, v in dump.get("vars", {}).items()}
+
+
+def strip_null_types(v):
+    """values with every null reduced to 'null' (the type a null carries is what differs when typing came from unexecuted code)"""
+    import re
+    return re.sub(r"N\([^)]*\)", "null", repr(v))
 
 
 def check_prog(case, res, vs):
@@ -143,16 +163,32 @@ def check_prog(case, res, vs):
     if whole.get("r") != "ok":
         return vs, False
     # the whole program compiled and ran: statement by statement must do the same
+
+    def only_unexecuted_typing(upto):
+        """the compile-time type x has at this point of the unit comes from an assignment that was compiled and never executed
+        (inside `if false`): as one unit the later statements are compiled for that type, statement by statement for the type
+        of the value x really holds"""
+        last = None
+        for st_ in m["seq"][:upto]:
+            if st_.startswith("if false") or st_.startswith("x = ") or st_.startswith("x.concat"):
+                last = st_
+        return last is not None and last.startswith("if false")
     for i, s in enumerate(parts):
         if s.get("r") != "ok":
-            vs.append(Violation("batch-vs-stepwise:%s" % s.get("r"), "the program %r runs as one unit, but statement %d (%r) fed alone gives %s" % (
+            key = "batch-vs-stepwise:%s" % s.get("r")
+            if only_unexecuted_typing(i):
+                key += ":typed-only-by-unexecuted-assignment:" + m["seq"][i]
+            vs.append(Violation(key, "the program %r runs as one unit, but statement %d (%r) fed alone gives %s" % (
                 " ".join(m["seq"]), i + 1, m["seq"][i], {a: b for a, b in s.items() if a in ("r", "msg")}), case))
             return vs, True
     if wout != pout:
         vs.append(Violation("batch-vs-stepwise:output", "the program %r prints %r as one unit and %r statement by statement" % (
             " ".join(m["seq"]), unhex(wout or ""), unhex(pout or "")), case))
     elif vals(wdump) != vals(pdump) or wf.get("funcs") != pf.get("funcs"):
-        vs.append(Violation("batch-vs-stepwise:state", "the program %r leaves %r as one unit and %r statement by statement" % (
+        key = "batch-vs-stepwise:state"
+        if only_unexecuted_typing(len(m["seq"])) and strip_null_types(vals(wdump)) == strip_null_types(vals(pdump)):
+            key += ":typed-only-by-unexecuted-assignment:null-of-another-type"
+        vs.append(Violation(key, "the program %r leaves %r as one unit and %r statement by statement" % (
             " ".join(m["seq"]), wdump.get("vars"), pdump.get("vars")), case))
     return vs, True
 
